@@ -5,7 +5,7 @@
    labels: which thread moves, which ready select case is taken, when the context
    ends); [run] skips labels that are not enabled. *)
 From Coq Require Import List ZArith Bool Arith Permutation.
-From GZ Require Import C10.Model C10.Proofs.
+From GZ Require Import C10.Model C10.Proofs C10.ProofsT C10.ProofsQ.
 Import ListNotations.
 
 (* At most [workers] mapper functions run at any time (and the pool never holds more
@@ -16,23 +16,45 @@ Theorem workers_bounded : forall c sched,
 Proof. exact workers_bounded_l. Qed.
 Print Assumptions workers_bounded.
 
-(* Exactly-once hand-over of items.  Every item whose send on [source] completed
-   went to exactly one receiver — a new mapper invocation (one per item) or a
-   drain(source) — and the completed sends are a prefix of the generator's sends, in
-   order.
-   FULL STATEMENT (map_exactly_once): additionally, when no user function cancels or
-   panics and the context does not end, [g_drained s = []], so in a finished run
-   map mitem (maps s) = all_sends (gscript c).  That last part is NOT proved here
-   for all sizes; it is checked on every fault-free case of the correspondence run
-   (prop_ok) — hence the suffix _partial. *)
-Theorem map_exactly_once_partial : forall c sched,
+(* Hand-over of items, in every run (faults included).  Every item whose send on [source]
+   completed went to exactly one receiver — a new mapper invocation (one per item) or a
+   drain(source) — and the completed sends are a prefix of the generator's sends, in order. *)
+Theorem items_handed_over_once : forall c sched,
   let s := run c (init c) sched in
   Permutation (g_sent s) (map mitem (maps s) ++ g_drained s)
   /\ exists later, g_sent s ++ todo (genpc s) ++ later = all_sends (gscript c).
 Proof.
   intros c sched s. destruct (inv_logs_all c sched) as (H1 & _ & _ & H4). split; assumption.
 Qed.
-Print Assumptions map_exactly_once_partial.
+Print Assumptions items_handed_over_once.
+
+(* When nothing is cancelled: no script contains a cancel or a panic ([quiet_cfg]) and the
+   context does not end (the schedule has no [LCtx]).  Then, under every such schedule, in
+   every state: nothing is ever drained, the items handed to mapper invocations are exactly
+   the completed sends, and once the generator has ended they are all of its sends. *)
+Theorem map_nothing_drained : forall c sched, quiet_cfg c -> ~ In LCtx sched ->
+  let s := run c (init c) sched in
+  g_drained s = [] /\ Permutation (g_sent s) (map mitem (maps s))
+  /\ (genpc s = Fin -> Permutation (all_sends (gscript c)) (map mitem (maps s))).
+Proof. exact map_exactly_once_l. Qed.
+Print Assumptions map_nothing_drained.
+
+(* map_exactly_once: in every terminal state (no thread can move) of a fault-free run of the
+   repaired protocol, every item the generator sends has been handed to exactly one mapper
+   invocation — for all item counts, worker counts >= 1 and fan-outs. *)
+Theorem map_exactly_once : forall c sched,
+  variant_of c = VFixed -> 1 <= workers c -> length (all_writes (rscript c)) <= 2 ->
+  quiet_cfg c -> ~ In LCtx sched ->
+  let s := run c (init c) sched in
+  stuck c s = true -> Permutation (all_sends (gscript c)) (map mitem (maps s)).
+Proof.
+  intros c sched V W1 H2 QC NC s K.
+  pose proof (terminal_clean_l c sched V W1 H2 K) as CL. fold s in CL.
+  destruct (map_exactly_once_l c sched QC NC) as (_ & _ & H). apply H.
+  unfold clean in CL. fold s. repeat (apply andb_true_iff in CL; destruct CL as (CL & ?)).
+  destruct (genpc s); try discriminate. reflexivity.
+Qed.
+Print Assumptions map_exactly_once.
 
 (* Exactly-once delivery of mapper outputs: the values accepted by the collector are,
    in order, those received by the reducer function, then those received by the
@@ -47,6 +69,38 @@ Proof.
   intros c sched s. destruct (inv_logs_all c sched) as (_ & H2 & H3 & _). split; assumption.
 Qed.
 Print Assumptions reduce_exactly_once.
+
+(* every_write_reaches_reducer: in a fault-free run of MapReduce (not ForEach) every value a
+   mapper writes is accepted by the collector (always: written ++ not-yet-written = all Writes
+   of the scripts of the mapped items); if the reducer ranges over the pipe until it is closed,
+   the wrapper's drain never receives anything, and in every terminal state of the repaired
+   protocol the reducer function has received exactly the Writes of all generated items. *)
+Theorem every_write_accepted : forall c sched, foreach c = false -> quiet_cfg c -> ~ In LCtx sched ->
+  let s := run c (init c) sched in
+  Permutation (g_written s ++ pw (maps s)) (aw c (maps s))
+  /\ (In URecvAll (rscript c) -> g_rdrained s = []).
+Proof.
+  intros c sched FE QC NC s. destruct (every_write_l c sched FE QC NC) as (A & B & _). split; assumption.
+Qed.
+Print Assumptions every_write_accepted.
+
+Theorem every_write_reaches_reducer : forall c sched,
+  variant_of c = VFixed -> 1 <= workers c -> length (all_writes (rscript c)) <= 2 ->
+  foreach c = false -> quiet_cfg c -> ~ In LCtx sched -> In URecvAll (rscript c) ->
+  let s := run c (init c) sched in
+  stuck c s = true ->
+  Permutation (g_reduced s) (flat_map (fun x => all_writes (mscript c x)) (all_sends (gscript c)))
+  /\ g_rdrained s = [].
+Proof.
+  intros c sched V W1 H2 FE QC NC RA s K.
+  pose proof (terminal_clean_l c sched V W1 H2 K) as CL. fold s in CL.
+  destruct (every_write_l c sched FE QC NC) as (_ & B & C). fold s in B, C.
+  split; [|apply B; assumption].
+  eapply Permutation_trans; [apply C; assumption|].
+  rewrite aw_items. apply Permutation_flat_map. apply Permutation_sym.
+  apply (map_exactly_once c sched V W1 H2 QC NC K).
+Qed.
+Print Assumptions every_write_reaches_reducer.
 
 (* What the call can return.  A value is one the reducer wrote; an error is the
    context error (and then the context did end) or the error of a cancel call
@@ -80,19 +134,23 @@ Proof.
 Qed.
 Print Assumptions error_is_cancels.
 
-(* Clean termination.
-   FULL STATEMENT (terminal_clean): for the repaired protocol,
-     forall c sched, variant_of c = VFixed ->
-       let s := run c (init c) sched in stuck c s = true -> clean s = true
-   (no deadlock and no leaked goroutine: the only states in which no thread can move
-   are those in which the caller has returned and every goroutine has ended), for
-   all item counts, worker counts and fault placements.  NOT proved in general.
-   Proved part: the blocking point that the F4 repair concerns is always released —
-   once the caller has returned, or is inside cancel on the context branch, quit is
-   closed, so no thread stays blocked in panicChan.write.  Pinned.v shows that the
-   pinned protocol violates exactly this (three schedules), and that a buffered
-   channel would instead lose panics. *)
-Theorem terminal_clean_partial : forall c sched,
+(* terminal_clean (deadlock- and leak-freedom of the repaired protocol): for every item count,
+   worker count >= 1 (WithWorkers clamps to 1), fan-out, fault placement (any scripts) and every
+   schedule, a state in which no thread can move is one in which the caller has returned and
+   every goroutine started by the call has ended.  In particular no user function is left
+   blocked inside a library call either.  Hypothesis on the reducer: at most two Writes (a
+   third Write blocks inside the reducer's own call: [Pinned.third_write_blocks]).
+   The pinned protocol violates this (Pinned.v). *)
+Theorem terminal_clean : forall c sched,
+  variant_of c = VFixed -> 1 <= workers c -> length (all_writes (rscript c)) <= 2 ->
+  let s := run c (init c) sched in
+  stuck c s = true -> clean s = true.
+Proof. exact terminal_clean_l. Qed.
+Print Assumptions terminal_clean.
+
+(* the blocking point the F4 repair concerns: once the caller has returned, or is inside cancel
+   on the context branch, quit is closed, so no thread stays blocked in panicChan.write *)
+Theorem quit_closed_after_commit : forall c sched,
   variant_of c = VFixed ->
   let s := run c (init c) sched in
   match mainpc s with
@@ -100,7 +158,7 @@ Theorem terminal_clean_partial : forall c sched,
   | _ => True
   end.
 Proof. intros c sched V. exact (inv_quit_all c sched V). Qed.
-Print Assumptions terminal_clean_partial.
+Print Assumptions quit_closed_after_commit.
 
 (* non-vacuity: a concrete run with 3 items, 2 workers, fan-out 2 in which a mapper
    cancels and another panics later; the hypotheses are met and the run ends clean *)
@@ -132,3 +190,21 @@ Example ex_run2 :
   result s = Some (OErr (ECancel 7)) /\ clean s = true /\ g_panics s = [PUser 9]
   /\ g_cancels s = [ECancel 7] /\ map mitem (maps s) = [1; 2; 3].
 Proof. vm_compute. repeat split; reflexivity. Qed.
+
+(* non-vacuity of the fault-free theorems: 3 items, 2 workers, fan-out 2, the reducer ranges over
+   the pipe and writes one value; a fair round-robin schedule ends in a terminal state *)
+Definition q_cfg : config :=
+  mkCfg VFixed false 2%nat [USend 1; USend 2; USend 3] (fun x => [UWrite (10 * x); UWrite (10 * x + 1)])
+        [URecvAll; UWrite 777].
+Example q_cfg_quiet : quiet_cfg q_cfg.
+Proof. repeat split; reflexivity. Qed.
+Example q_run :
+  let s := run q_cfg (init q_cfg) ex_sched in
+  ~ In LCtx ex_sched /\ stuck q_cfg s = true /\ result s = Some (OVal 777)
+  /\ map mitem (maps s) = [1; 2; 3] /\ g_drained s = [] /\ g_rdrained s = []
+  /\ length (g_reduced s) = 6%nat /\ g_peak s = 2%nat.
+Proof.
+  split.
+  - intro H. vm_compute in H. repeat (destruct H as [H|H]; [discriminate|]). exact H.
+  - vm_compute. repeat split; reflexivity.
+Qed.
